@@ -202,6 +202,21 @@ def zoo(rng, kind):
     return rng.choice([lambda: O.Replace(pr()), lambda: O.SSX(pr()), lambda: O.GAOperator(O.SSX(1.0), O.Replace(0.6))])()
 
 
+REAL_ONLY = {"DifferentialEvolution", "UniformMutation", "NonUniformMutation", "PCX", "UNDX", "SPX"}
+
+
+def op_names(op):
+    out = {type(op).__name__}
+    for attr in ("variators", "mutators"):
+        for sub in getattr(op, attr, []) or []:
+            out |= op_names(sub)
+    for attr in ("variation", "mutation"):
+        sub = getattr(op, attr, None)
+        if sub is not None and not isinstance(sub, (int, float, str)):
+            out |= op_names(sub)
+    return out
+
+
 # --------------------------------------------------------------------------- oracle
 
 def valid_var(t, ptype, v):
@@ -327,6 +342,36 @@ def run(ctx, drv):
         special = rng.choice([None, None, None, "identical", "centroid"])
         parents = make_parents(rng, p, ts, arity, special)
         run_case(ctx, ask, rng, kind, op, ts, p, parents, note=special or "")
+    # ---- mixed-type problems: an operator written for one variable type applied to solutions that also carry variables of
+    # other types (copies must be deep for every variable, not only for those the operator looks at)
+    allk = ["real", "binary", "int", "perm", "subset"]
+    for k in range(n // 4):
+        kind = allk[k % len(allk)]
+        others = [x for x in allk if x != kind]
+        r = rng.random()
+        # every operator is paired with a problem that has at least one variable of each type it acts on (PM with an integer
+        # probability divides by the number of Real variables; PCX & co. treat every variable as a real): anything else is a
+        # misuse outside the property's "valid parents"
+        if r < 0.2:
+            op = O.CompoundOperator(O.SBX(rng.choice([1.0, 0.5])), O.HUX(rng.choice([1.0, 0.5])), O.PM(1), O.BitFlip(rng.choice([1, 0.5])))
+            ts = make_types(rng, "real", rng.randrange(1, 3)) + make_types(rng, "binary", 1) + make_types(rng, rng.choice(["int", "perm", "subset"]), rng.randrange(0, 2))
+            rng.shuffle(ts)
+        elif r < 0.3:
+            op = O.CompoundOperator(O.PMX(1.0), O.SSX(1.0), O.Swap(0.7), O.Replace(0.7))
+            ts = make_types(rng, "perm", 1) + make_types(rng, "subset", 1) + make_types(rng, rng.choice(["real", "binary", "int"]), rng.randrange(0, 2))
+            rng.shuffle(ts)
+        else:
+            op = zoo(rng, kind)
+            while REAL_ONLY & op_names(op):       # these treat every variable as a real: not applicable to mixed problems
+                op = zoo(rng, kind)
+            pre = make_types(rng, rng.choice(others), rng.randrange(0, 2)) if rng.random() < 0.7 else []
+            post_ = [t for kk in rng.sample(others, rng.randrange(1, 3)) for t in make_types(rng, kk, 1)]
+            ts = pre + make_types(rng, kind, rng.randrange(1, 3)) + post_
+        p = build_problem(ts)
+        arity = 1 if isinstance(op, C.Mutation) else op.arity
+        parents = make_parents(rng, p, ts, arity, rng.choice([None, None, "identical"]))
+        run_case(ctx, ask, rng, kind, op, ts, p, parents, note="mixed-types")
+    ctx.count("mixed_type_cases", n // 4)
     # ---- exhaustive discrete sub-domains (stream enumerated through the scripted tape with extreme rate 0.3)
     nex = 0
     for nperm in (1, 2, 3, 4):
